@@ -469,6 +469,187 @@ def helper_configs():
     return [{"helper": n, "prefix": p} for n in callable_names for p in PREFIXES], callable_names, uncallable
 
 
+# ---------------------------------------------------------------------------
+# several calls one after the other on one connection (and on separate connections):
+# what one call consumed is gone; nothing is carried over to a later call
+# ---------------------------------------------------------------------------
+RUN_SEQ = "vf.checks.c01:run_sequence"
+SEQ_T = 1.0
+
+
+def run_sequence(ctl: explorer.Ctl, cfg: Dict[str, Any]) -> Dict[str, Any]:
+    """cfg: ids ('digits' | 'uuid' | 'same'), streams ('shared' | 'separate'), calls n,
+    deliveries [(phase, kind)] with phase 0 = queued before the first call, phase k = arriving
+    0.1 s, 0.2 s, ... after call k started; kind in R<j>, E<j>, Q<j> (response / error / server
+    request bearing the id of call j), O, N."""
+    from chuk_mcp.protocol.messages.json_rpc_message import parse_message
+    from chuk_mcp.protocol.messages.send_message import send_message
+    from chuk_mcp.protocol.types.errors import NonRetryableError, RetryableError
+
+    n = cfg["calls"]
+    T = SEQ_T
+    loop = new_loop(horizon=(n + 1) * (T + 1) + 5)
+    viol: List[dict] = []
+    with sched.patched_uuid():
+        probe = sched.UuidStub()
+        uu = [str(probe()) for _ in range(n)]
+        if cfg["ids"] == "digits":
+            rids = [str(k + 1) for k in range(n)]
+        elif cfg["ids"] == "same":
+            rids = ["again"] * n
+        else:
+            rids = uu
+        separate = cfg["streams"] == "separate"
+        arrivals: List[List[tuple]] = [[] for _ in range(n if separate else 1)]  # per connection: (time, seqno, wire)
+        counter = {"n": 0}
+        conns: List[tuple] = []
+        results: List[tuple] = []
+
+        def wire_of(kind: str, seq: int):
+            j = {"jsonrpc": "2.0"}
+            if kind == "N":
+                return {**j, "method": "notifications/message", "params": {"data": seq}}
+            if kind == "O":
+                return {**j, "id": OTHER_ID, "result": {"v": "O"}}
+            rid = rids[int(kind[1:]) - 1]
+            if kind[0] == "R":
+                return {**j, "id": rid, "result": {"v": kind, "seq": seq}}
+            if kind[0] == "E":
+                return {**j, "id": rid, "error": {"code": -32000, "message": f"boom-{kind}-{seq}"}}
+            if kind[0] == "Q":
+                return {**j, "id": rid, "method": "ping"}
+            raise KeyError(kind)
+
+        def deliver(ci: int, wire):
+            counter["n"] += 1
+            arrivals[ci].append((loop.time(), counter["n"], wire))
+            conns[ci][0].send_nowait(parse_message(wire))
+
+        async def main():
+            for _ in range(n if separate else 1):
+                send_w, recv_w = anyio.create_memory_object_stream(math.inf)
+                send_r, recv_r = anyio.create_memory_object_stream(math.inf)
+                conns.append((send_r, recv_r, send_w, recv_w))
+            seq = 0
+            for (ph, kind) in cfg["deliveries"]:
+                if ph == 0:
+                    seq += 1
+                    deliver(0, wire_of(kind, seq))
+            for k in range(1, n + 1):
+                ci = (k - 1) if separate else 0
+                i = 0
+                for (ph, kind) in cfg["deliveries"]:
+                    if ph == k:
+                        i += 1
+                        seq += 1
+                        loop.call_later(0.1 * i, deliver, ci, wire_of(kind, seq))
+                kw = {} if cfg["ids"] == "uuid" else {"message_id": rids[k - 1]}
+                t0 = loop.time()
+                try:
+                    r = await send_message(conns[ci][1], conns[ci][2], "tools/list", {"call": k}, timeout=T, **kw)
+                    out = ("result", r)
+                except TimeoutError:
+                    out = ("timeout", None)
+                except (RetryableError, NonRetryableError) as e:
+                    out = ("error", {"code": getattr(e, "code", None), "str": str(e)})
+                except BaseException as e:  # noqa: BLE001
+                    out = ("other-exc", core.clean_repr(e)[:160])
+                results.append((out, t0, loop.time()))
+
+        status, val = loop.run_main(main())
+        errors = loop.collect_errors()
+        writes: List[List[Any]] = []
+        for c in conns:
+            ws = []
+            try:
+                while True:
+                    ws.append(c[3].receive_nowait())
+            except Exception:  # noqa: BLE001
+                pass
+            writes.append(ws)
+        leftover = len(loop.leftover_tasks())
+        loop.abandon()
+    obs: Dict[str, Any] = {"status": status, "deliveries": cfg["deliveries"]}
+    if status != "ok":
+        obs["outcome"] = status
+        obs["violations"] = [{"sig": {"class": "did-not-finish", "part": "sequence", "status": status},
+                              "msg": f"cfg={cfg}: {status} {core.clean_repr(val)}"}]
+        return obs
+    # reference: each connection is a queue; a call consumes it in arrival order up to its own response or its deadline
+    consumed = [set() for _ in arrivals]
+    summary = []
+    start = 0.0
+    for k in range(1, n + 1):
+        ci = (k - 1) if separate else 0
+        rid = rids[k - 1]
+        (okind, oval), t0, t1 = results[k - 1]
+        exp = ("timeout", None, t0 + T)
+        for idx, (t, _, w) in enumerate(arrivals[ci]):
+            if idx in consumed[ci]:
+                continue
+            if t > t0 + T + 1e-12:
+                break
+            consumed[ci].add(idx)
+            if "method" in w or not _same_id(w.get("id"), rid):
+                continue
+            exp = ("error", w["error"], max(t, t0)) if "error" in w else ("result", w["result"], max(t, t0))
+            break
+        ok = okind == exp[0] and abs(t1 - exp[2]) < 1e-9
+        if ok and okind == "result":
+            ok = oval == exp[1]
+        if ok and okind == "error":
+            ok = oval["code"] == exp[1]["code"] and exp[1]["message"] in oval["str"]
+        summary.append(okind)
+        if not ok:
+            stale = okind == "result" and isinstance(oval, dict) and any(
+                w.get("result") == oval and t < t0 - 1e-12 and i in consumed[c2] for c2 in range(len(arrivals))
+                for i, (t, _, w) in enumerate(arrivals[c2]) if isinstance(w, dict))
+            cls = "returned-message-consumed-by-an-earlier-call" if stale and exp[0] != "result" or (stale and oval != exp[1]) \
+                else "sequence-call-wrong-outcome"
+            viol.append({"sig": {"class": cls, "call": k, "expected": exp[0], "got": okind, "streams": cfg["streams"]},
+                         "msg": f"cfg={cfg}: call {k} (id {rid!r}, started {t0}) ended {okind} {oval!r} at {t1}; "
+                                f"reference: {exp[0]} {exp[1]!r} at {exp[2]}; arrivals={[(round(t, 6), w) for c in arrivals for (t, _, w) in c]}"})
+    # the wire: one request per call, in call order, on the call's own connection
+    for ci, ws in enumerate(writes):
+        ks = [ci + 1] if separate else list(range(1, n + 1))
+        got = []
+        for m in ws:
+            try:
+                got.append(m.model_dump(exclude_none=True))
+            except Exception:  # noqa: BLE001
+                got.append(repr(m))
+        want = [{"jsonrpc": "2.0", "id": rids[k - 1], "method": "tools/list", "params": {"call": k}} for k in ks]
+        if got != want:
+            viol.append({"sig": {"class": "sequence-wrong-requests"}, "msg": f"cfg={cfg}: connection {ci} wrote {got}, expected {want}"})
+    if errors:
+        viol.append({"sig": {"class": "loop-error", "part": "sequence"}, "msg": f"{errors[:2]}"})
+    if leftover:
+        viol.append({"sig": {"class": "leftover-tasks", "part": "sequence"}, "msg": f"cfg={cfg}: {leftover} tasks pending"})
+    obs["outcome"] = "/".join(summary)
+    obs["violations"] = viol
+    return obs
+
+
+def sequence_configs(tier: str):
+    import itertools as it
+
+    out = []
+    for n, L in ((2, 3), (3, 2)) if tier == "quick" else ((2, 4), (3, 3)):
+        kinds = ["N", "O"] + [f"{c}{j}" for j in range(1, n + 1) for c in ("R", "E", "Q")]
+        units = [(ph, k) for ph in range(0, n + 1) for k in kinds]
+        for l in range(0, L + 1):
+            for combo in it.product(units, repeat=l):
+                phases = [u[0] for u in combo]
+                if phases != sorted(phases):
+                    continue
+                for ids in ("digits", "uuid", "same"):
+                    for streams in ("shared", "separate"):
+                        if streams == "separate" and l > 2 and tier == "quick":
+                            continue
+                        out.append({"calls": n, "ids": ids, "streams": streams, "deliveries": [list(u) for u in combo]})
+    return out
+
+
 def configs_for(tier: str):
     full = []
     # depth 1: full product of timeouts, id shapes, params shapes, callback
@@ -523,6 +704,10 @@ def run(tier: str, only=None) -> core.Result:
         out = explorer.explore(RUN_HELPER, hcfgs, fidelity=True)
         sched.absorb(res, "typed-helpers-x-distractor-prefixes", RUN_HELPER, out, hcfgs, min_outcomes=1)
         res.coverage["helpers_discovered"] = [n.split(":")[-1] for n in hnames]
+    sq = sequence_configs(tier)
+    out = explorer.explore(RUN_SEQ, sq, fidelity=True)
+    sched.absorb(res, "calls-one-after-the-other", RUN_SEQ, out, sq)
+    sched.debug_pass(res, "calls-one-after-the-other", RUN_SEQ, sq, every=53)
     if tier == "thorough":
         l3 = [dict(c, L=3, rich=False) for c in deep]
         out = explorer.explore(RUN, l3, fidelity=True)
@@ -532,7 +717,9 @@ def run(tier: str, only=None) -> core.Result:
         "every history of incoming messages of length <= L over the alphabet {R,R0,E,O,Oe,N,Q,Qn,P-,P+,B,I} "
         "(plus one optionally pre-queued message), each delivery placed at every point of the anchor-relative "
         "time menu (now, +eps, half-way, just before / exactly on (both tie orders) / just after the next library "
-        "timer and the outer deadline); distinct = distinct observation digests"
+        "timer and the outer deadline); plus 2-3 calls one after the other on one connection or on separate connections "
+        "with every history of <= L deliveries (response / error / server request bearing the id of ANY of the calls, "
+        "other-id response, notification) placed before the first call or during any call; distinct = distinct observation digests"
     )
     res.assumptions = [
         "virtual-time loop schedules ready callbacks FIFO like stock asyncio; equal-time timers ordered explicitly",
